@@ -1059,7 +1059,7 @@ func scenario(r *Rng, emit func(Sx)) {
 		if enforce {
 			if r.Chance(1, 8) {
 				// deliver before its time: rejected as a future update, then again later
-				ops = append(ops, L(I(1), I(now), Bool(true), d.u, d.nc))
+				ops = append(ops, L(I(1), I(now), Bool(d.forged), d.u, d.nc))
 			}
 			t = advance(d.at)
 		}
